@@ -40,14 +40,19 @@ def main():
         try:
             # translators + one build first, so the parallel checks do not all rebuild
             sh('cd %s && /venv/bin/python harness/run.py gen' % VERIF)
+            pids = PIDS
+            if os.environ.get('SWEEP_MODE') == 'own':
+                # only the check of the property the change targets (plus C01 for schedule-dependent cache changes)
+                own = sid.split('-')[0]
+                pids = [own] + (['C01'] if own == 'C16' else [])
             with ThreadPoolExecutor(max_workers=10) as ex:
-                rows = list(ex.map(run_check, PIDS))
+                rows = list(ex.map(run_check, pids))
         finally:
             sh('cd /repo && git checkout -q -- . && git reset -q')
         det = {pid: {'exit': rc, 'violations': nv, 'no_failing_input_found': nf, 's': t} for pid, rc, nv, nf, t in rows}
         result[sid] = det
-        caught = [p for p in PIDS if det[p]['exit'] == 1]
-        errs = [p for p in PIDS if det[p]['exit'] not in (0, 1)]
+        caught = [p for p in PIDS if p in det and det[p]['exit'] == 1]
+        errs = [p for p in PIDS if p in det and det[p]['exit'] not in (0, 1)]
         print(sid, 'caught by', caught, ('ERRORS ' + str(errs)) if errs else '', flush=True)
         mp = os.path.join(VERIF, 'seeded', sid, 'meta.json')
         m = json.load(open(mp))
